@@ -8,6 +8,9 @@ CLAIMS={
  "C03":("Keyed sparse conditional constant propagation over the decoder: for each of the 2x256 opcode bytes the extracted behaviour (operand kinds/order, repeat count, delivered method, argument wiring incl. arc flag bits, next mode, reserved=>DecodeError with nothing read) is compared with tables written from the specification; the nine operand decoders are compared with the number/colour tables as bit-wiring and rational normal forms (all 256 one-byte colours, every form of every number kind, acceptance gate on length and tag). Exhaustive over the key spaces; no input value is sampled.",
         "Values are decided as formulas over the reals / as bit wiring; the float32 reinterpretation is an opaque function; metadata framing is decided under C13.",
         "static analysis: keyed SCCP with gated joins over go/ssa, bit-level and rational normal forms, compared with specification tables"),
+ "C04":("The register machine as implemented by the Renderer, decided per method on symbolic state: register index = (selector - ADJ) mod 64 using the pre-increment selector, post-increment exactly under the incrementing form, selectors stored as low 6 bits, Reset values (registers from the palette argument, zeros, LOD [0,+Inf)), SetCReg stores Color.Resolve(&palette,&registers), Resolve per colour kind incl. the blend formula ((255-t)c0+tc1+128)/255 on resolved one-byte operands, StartPath's disabled flag propositionally equivalent (truth table over the comparison atoms) to paint-disabled or not(LOD0<=H<LOD1) and rasteriser activity exactly when not disabled, flat/gradient paint choice, initGradient's stop validation (premultiplied, 0<=offset<=1, strictly increasing from -Inf), and no state-changing rasteriser call in any drawing-mode method when the path is disabled.",
+        "Gradient colour arithmetic (C15); that the decoder leaves drawing mode for a skipped path (C11.1); pixels.",
+        "static analysis: symbolic abstract interpretation of go/ssa, rational normal forms, propositional equivalence of path conditions by truth table"),
  "C05":("Every Renderer drawing method is evaluated once, symbolically, on the state Reset leaves; the state-changing rasteriser calls it makes (which, in which order, exactly once on the enabled path) and every coordinate argument, brought to rational normal form, are compared with the reference geometry of the property: affine viewBox->rectangle image for absolute operands, pen plus scaled operand for relative ones, untouched pen coordinate for H/V, reflection of the previous same-degree control point (or the pen) for smooth verbs, close before move with the pen re-read after closing, Reset(Dx,Dy)+MoveTo at path start, ClosePath+Draw(z.r, fill, (0,0)) at path end; smooth-curve state after each verb. All 16 non-arc verbs plus the four path-structure methods, for all operands/viewBoxes/rectangles at once.",
         "Rounding; that the rasteriser's ClosePath leaves the pen at the sub-path start (assumed); sequences of verbs are covered through the per-verb pre/post state, not as histories.",
         "static analysis: symbolic abstract interpretation of go/ssa with event traces + rational normal forms compared with a reference geometry"),
